@@ -41,6 +41,7 @@ class Ctx:
         self.rng = rng or random.Random(0)
         self.notes = []
         self.cover = set()
+        self.side_obligations = []     # (name, goal, pc snapshot): loop-init / loop-step / loop-variant
 
     # -- naming ------------------------------------------------------------------------------
     def uniq(self, name):
